@@ -388,6 +388,11 @@ pub fn run_case(case: &Case, rep: &mut Report) -> Option<(String, String)> {
 
 fn gen_key(rng: &mut Rng) -> Vec<u8> {
     const ALPHA: [u8; 5] = [0x00, 0x01, 0x61, 0x62, 0xFF];
+    // now and then a key of more than 64 KiB
+    if rng.chance(1, 700) {
+        let b = *rng.pick(&ALPHA);
+        return vec![b; *rng.pick(&[65_536usize, 65_537, 70_000])];
+    }
     let len = match rng.below(10) {
         0 => 0,
         1..=3 => 1,
